@@ -17,7 +17,12 @@ Scripts(view, n) ==
 (* scripts that end in a state-changing request only (a trailing setBps/inspect observes nothing new) *)
 Useful(q) == /\ q # <<>> /\ q[Len(q)] \notin {"setBpsA", "setBpsB", "setBpsNone", "inspect", "probe"}
              /\ \A n \in 1..Len(q) : q[n] = "probe" => (n > 1 /\ q[n - 1] \in {"setBpsA", "setBpsB"})   \* a probe anchors a breakpoint just installed
-All == {[bps0 |-> b, script |-> q] : b \in {"None", "A", "B"}, q \in {q \in Scripts("running", MaxLen) : Useful(q)}}
+(* run-through scripts for programs in which the breakpoint line is assembled several times: stop at every copy   *)
+(* (wait, then n times continue + wait): longer than MaxLen but a single path, instantiated on every such program  *)
+RECURSIVE RunThrough(_)
+RunThrough(n) == IF n = 0 THEN <<"wait">> ELSE RunThrough(n - 1) \o <<"continue", "wait">>
+All == {[bps0 |-> b, script |-> q, family |-> "general"] : b \in {"None", "A", "B"}, q \in {q \in Scripts("running", MaxLen) : Useful(q)}}
+       \cup {[bps0 |-> b, script |-> RunThrough(n), family |-> "runthrough"] : b \in {"A", "B"}, n \in 1..3}
 VARIABLE x
 Init == x = 0 /\ ndJsonSerialize(IOEnv.OUT, SetToSeq(All)) /\ PrintT(<<"CASES", Cardinality(All)>>)
 Next == UNCHANGED x
